@@ -207,6 +207,20 @@ def check(case):
             return Fail(f'roundtrip-pairs-differ/{name}', f'n={n} expected {exp_items[:6]} got {sorted(items)[:6]}')
         if [k for k, _ in items] != [k for k, _ in exp_items]:
             return Fail(f'keys-not-ascending/{name}', f'{[k for k, _ in items][:10]}')
+    # the module-level writer HashMap.serialize rests on, called directly with the caller's dict in ITS insertion order
+    if form in ('int', 'bits', 'bytes'):
+        from pytoniq_core.boc.hashmap.utils import serialize_dict
+        direct = {}
+        for k, v in pairs:
+            direct.pop(_intkey(form, n, k), None)
+            direct[_intkey(form, n, k)] = _val(vkind, v)[0]
+        ok, c_direct = call(lambda: serialize_dict(direct, n, hm.value_serializer).end_cell())
+        if not ok:
+            return Fail(f'serialize_dict-raises/{type(c_direct).__name__}', f'{exc_sig(c_direct)}: {c_direct!r} n={n}')
+        if c_direct.hash != cell.hash:
+            ok, got = call(lambda: c_direct.begin_parse().load_hashmap(n, value_deserializer=des))
+            return Fail('serialize_dict/differs-from-HashMap.serialize', f'n={n} insertion order {[k for k in direct][:8]}: parses back as '
+                        f'{sorted(got.items())[:6] if ok else got!r}, expected {exp_items[:6]}')
     # store_dict writes the optional-reference framing and leaves nothing else
     s = Builder().store_dict(cell).end_cell().begin_parse()
     s.load_dict(n)
@@ -258,9 +272,24 @@ def check_invalid(case):
         hm.set(k, v)
     bad = case['bad']
     where = 'negative' if bad < 0 else 'too-large'
-    ok, r = call(hm.set, bad, 12345)
-    if not ok:
-        return None
+    route = case.get('route', 'set')
+    if route == 'set':
+        ok, r = call(hm.set, bad, 12345)
+        if not ok:
+            return None
+    elif route == 'map_':               # the constructor's map_ argument (what the library's own TL-B writers use)
+        d = dict(hm.map)
+        d[bad] = 12345
+        if case.get('first'):
+            d = {bad: 12345, **{k: v for k, v in d.items() if k != bad}}
+        ok, hm2 = call(lambda: HashMap(n, map_=d).with_uint_values(32))
+        if not ok:
+            return None
+        hm = hm2
+        where += '/via-map_'
+    else:                               # the public .map attribute
+        hm.map[bad] = 12345
+        where += '/via-map-attribute'
     ok, cell = call(hm.serialize)
     if not ok:
         return None
@@ -313,7 +342,7 @@ def st_invalid(draw):
     pairs = [[draw(st.integers(0, (1 << n) - 1)), draw(st.integers(0, 2 ** 32 - 1))] for _ in range(draw(st.integers(0, 5)))]
     bad = draw(st.one_of(st.integers(1 << n, (1 << n) + 5), st.integers(1 << n, 1 << (n + 3)), st.integers(-5, -1),
                          st.integers(-(1 << n), -1), st.integers(-(1 << (n + 1)), -(1 << n))))
-    return {'n': n, 'pairs': pairs, 'bad': bad}
+    return {'n': n, 'pairs': pairs, 'bad': bad, 'route': draw(st.sampled_from(['set', 'set', 'map_', 'map_', 'item'])), 'first': draw(st.booleans())}
 
 
 def _shares_prefix(case):
@@ -332,6 +361,7 @@ def classify(case):
     yield 'n=' + (str(n) if n <= 8 else '9-64' if n <= 64 else '65-267' if n <= 267 else '268-1023')
     if 'bad' in case:
         yield 'bad=' + ('negative' if case['bad'] < 0 else 'too-large')
+        yield 'bad-route=' + case.get('route', 'set')
         return
     cnt = len({k for k, _ in case['pairs']})
     yield 'entries=' + ('0' if cnt == 0 else '1' if cnt == 1 else '2-8' if cnt <= 8 else '9+')
